@@ -170,6 +170,18 @@ func genCrashHistory(r *Rng, withRebuild bool) []storeOp {
 	fuzzies := []string{"B2L1BR1P1R1", "", "B3L0BR2P0R2"}
 	var ops []storeOp
 	n := 3 + r.Intn(3)
+	// one history in three: the same signature written twice (index keys unchanged or partly changed)
+	// and then deleted - stacked versions of one index key under one tombstone; a crash (= WAL replay
+	// and memtable flush on reopen) must not bring the older version back
+	if r.Chance(33) {
+		s0 := genStoreSig(r, h, hashes, fuzzies)
+		s1 := s0
+		if r.Chance(50) {
+			s1.EntropyScore = pick(r, storeEntPool)
+		}
+		ops = append(ops, storeOp{Kind: "add", Sigs: []detection.Signature{s0}}, storeOp{Kind: "add", Sigs: []detection.Signature{s1}}, storeOp{Kind: "delete", ID: s0.ID})
+		n = 1 + r.Intn(2)
+	}
 	for i := 0; i < n; i++ {
 		switch c := r.Intn(10); {
 		case c < 5:
